@@ -505,6 +505,8 @@ where
         self.clear_tx.send(Signal::new(&wg)).await.map_err(|e| {
             CacheError::SendError(format!("fail to send clear signal to working thread {}", e))
         })?;
+        #[cfg(transparencies_stretto_verif)]
+        crate::verif::yield_point("clear:before_block");
         wg.wait().await;
 
         Ok(())
@@ -577,11 +579,15 @@ where
         let wg = WaitGroup::new();
         match self.insert_buf_tx.try_send(Item::Wait(Signal::new(&wg))) {
             Ok(_) => {
+                #[cfg(transparencies_stretto_verif)]
+                crate::verif::yield_point("wait:after_send");
                 // A close() that started after the marker was queued drains the buffer before
                 // the processing task exits; one that started before may never look at it.
                 if self.is_closed.load(Ordering::SeqCst) {
                     return Ok(());
                 }
+                #[cfg(transparencies_stretto_verif)]
+                crate::verif::yield_point("wait:before_block");
                 wg.wait().await;
                 Ok(())
             }
@@ -610,6 +616,8 @@ where
         if let Some(prev) = prev {
             self.callback.on_exit(Some(prev.value.into_inner()));
         }
+        #[cfg(transparencies_stretto_verif)]
+        crate::verif::yield_point("rem:before_send");
         // If we've set an item, it would be applied slightly later.
         // So we must push the same item to `setBuf` with the deletion flag.
         // This ensures that if a set is followed by a delete, it will be
@@ -626,11 +634,17 @@ where
             return Ok(());
         }
 
+        #[cfg(transparencies_stretto_verif)]
+        crate::verif::yield_point("close:after_flag");
         self.clear_in().await?;
+        #[cfg(transparencies_stretto_verif)]
+        crate::verif::yield_point("close:before_stop");
         // Block until processItems thread is returned
         self.stop_tx.send(()).await.map_err(|e| {
             CacheError::SendError(format!("fail to send stop signal to working thread, {}", e))
         })?;
+        #[cfg(transparencies_stretto_verif)]
+        crate::verif::yield_point("close:before_policy");
         self.policy.close().await?;
         Ok(())
     }
@@ -650,6 +664,8 @@ where
 
         if let Some((index, item)) = self.try_update(key, val, cost, ttl, only_update)? {
             let is_update = item.is_update();
+            #[cfg(transparencies_stretto_verif)]
+            crate::verif::yield_point("ins:before_send");
             select! {
                 res = self.insert_buf_tx.send(item).fuse() => res.map_or_else(|_| {
                    if is_update {
@@ -721,30 +737,50 @@ where
     pub(crate) fn spawn(mut self, spawner: Box<dyn Fn(BoxFuture<'static, ()>) + Send + Sync>) {
         (spawner)(Box::pin(async move {
             let mut cleanup_timer = Timer::interval(self.cleanup_duration);
+            #[cfg(transparencies_stretto_verif)]
+            let mut cleanup_timer = crate::verif::async_ticker(cleanup_timer);
 
             loop {
+                #[cfg(transparencies_stretto_verif)]
+                crate::verif::yield_point("proc:loop");
                 select! {
                     item = self.insert_buf_rx.recv().fuse() => {
+                        #[cfg(transparencies_stretto_verif)]
+                        crate::verif::note("proc:arm:item", &[]);
                         if let Err(e) = self.handle_insert_event(item) {
                             tracing::error!("fail to handle insert event, error: {}", e);
                         }
                     }
                     _ = cleanup_timer.next().fuse() => {
+                        #[cfg(transparencies_stretto_verif)]
+                        crate::verif::note("proc:arm:tick", &[]);
                         if let Err(e) = self.handle_cleanup_event() {
                             tracing::error!("fail to handle cleanup event, error: {}", e);
                         }
                     },
                     signal = self.clear_rx.recv().fuse() => {
+                        #[cfg(transparencies_stretto_verif)]
+                        crate::verif::note("proc:arm:clear", &[]);
                         if let Err(e) = CacheCleaner::new(&mut self).clean().await {
                             tracing::error!("fail to handle clear event, error: {}", e);
                         }
+                        #[cfg(transparencies_stretto_verif)]
+                        crate::verif::yield_point("proc:clear:after_drain");
                         self.policy.clear();
+                        #[cfg(transparencies_stretto_verif)]
+                        crate::verif::yield_point("proc:clear:after_policy");
                         self.store.clear();
+                        #[cfg(transparencies_stretto_verif)]
+                        crate::verif::yield_point("proc:clear:after_store");
                         self.metrics.clear();
                         drop(signal);
                     },
                     _ = self.stop_rx.recv().fuse() => {
+                        #[cfg(transparencies_stretto_verif)]
+                        crate::verif::note("proc:arm:stop", &[]);
                         _ = self.handle_close_event();
+                        #[cfg(transparencies_stretto_verif)]
+                        crate::verif::note("proc:exit", &[]);
                         return;
                     },
                 }
